@@ -1428,5 +1428,10 @@ def check(program, rep):
     rep.guard("C08-R6", r6_tags, program, rep)
     rep.guard("C08-R6", r6_own_tags, program, rep)
     rep.floor("C08-R4", 5)
+    # the slips that are visible wherever they occur (NAMELINK, FALSY, STALE,
+    # NOEFFECT, SLIPS - DESIGN.md 9.13-9.15), over the property's modules
+    from .. import namelink as _nl
+    rep.guard("C08-R7", _nl.rule, program, rep, "C08-R7",
+              ['rig.bitfield'], floor=0)
     return finish(rep, program, EXPLANATION, NOT_DECIDED,
                   trusted=["the engines' arithmetic normal forms (pow2)"])
